@@ -73,7 +73,8 @@ def every_boundary(quick):
 def check(ctx):
     # the monitor runs on every implementation line, also where model and engine agree
     gens = [("reset", 400, 30000, reset_case), ("sync", 500, 20000, lambda r: schedgen.gen_case(r, schedgen.gen_sync_prog(r))),
-            ("timer", 200, 10000, lambda r: schedgen.gen_case(r, schedgen.gen_timer_prog(r)))]
+            ("timer", 200, 10000, lambda r: schedgen.gen_case(r, schedgen.gen_timer_prog(r))),
+            ("hub", 150, 8000, lambda r: schedgen.gen_case(r, schedgen.gen_hub_prog(r), ncalls=1))]
     rule = ("sync/timer programs under random schedules with director.Reset(), a recompile of the same script or of a different "
             "script injected at a random frame / host-call boundary, then compiled and run again; plus a fixed family with the "
             "injection at EVERY boundary; every engine answer is also checked by the monitor idle=>all pools empty, "
